@@ -211,8 +211,14 @@ Emit ==
 
 \* ------------------------------------------------------------------ properties
 Running == phase \in {"eval", "gain", "bias", "done", "cap", "cycle"}
-\* (P0) instance filter: the batch is well formed and has no action-less state
-InstancesWellFormed == WellFormed(M) /\ DeadEnd(M) = {}
+\* (P0) instance filter: the batch is well formed and has no action-less state.  (MDP!WellFormed with one
+\*      difference: the discount 0 - a legal, fully myopic discount rate - is admitted: 0 <= GN <= GD.)
+WellFormed16(m) ==
+  /\ \A s \in St(m) : \A a \in Avail(m, s) : SumTo([t \in St(m) |-> m.P[s][a][t]], m.N) = m.PD
+  /\ \A s \in St(m), a \in Ac(m), t \in St(m) : m.P[s][a][t] >= 0
+  /\ SumTo([s \in St(m) |-> m.p0[s]], m.N) = m.ID
+  /\ m.GN >= 0 /\ m.GN <= m.GD /\ m.GD > 0
+InstancesWellFormed == WellFormed16(M) /\ DeadEnd(M) = {}
 \* (P1) the oracle is attained by one deterministic policy at all states simultaneously, absorbing
 \*      states are worth 0, and (undiscounted) the optimal gain satisfies the first multichain
 \*      optimality equation  max_a sum_t P(t|s,a) g*(t) = g*(s)
